@@ -40,6 +40,11 @@ pub struct S {
     filter: fn(&str) -> bool,
     /// PCT-like mode: per-thread priorities + change points (None = uniform random)
     prio: Option<(Vec<u32>, Vec<usize>)>,
+    /// threads that finished (normally, by a panic of the code under test, or unwound by the scheduler)
+    finished: usize,
+    /// threads that could not be unwound (the run was ended while they were inside a destructor): parked forever, leaked
+    zombies: usize,
+    panics: Vec<Option<String>>,
 }
 
 pub struct Sched { m: Mutex<S>, cv: Condvar }
@@ -47,6 +52,8 @@ pub struct Sched { m: Mutex<S>, cv: Condvar }
 thread_local! {
     static TID:  Cell<usize> = const { Cell::new(usize::MAX) };
     static LTID: Cell<usize> = const { Cell::new(0) };
+    /// set while the scheduler evaluates a blocked thread's condition (which may call hooked code): hooks are ignored
+    static IN_SCHED: Cell<bool> = const { Cell::new(false) };
 }
 
 pub fn xorshift(x: &mut u64) -> u64 {
@@ -87,9 +94,11 @@ impl S {
     fn pick_next(&mut self) {
         if self.abort.is_some() { return }
         // re-evaluate blocked threads
+        IN_SCHED.with(|f| f.set(true));
         for t in self.th.iter_mut() {
             if let Status::Blocked(c) = &t.status { if c() { t.status = Status::Runnable } }
         }
+        IN_SCHED.with(|f| f.set(false));
         let runnable: Vec<usize> = (0..self.th.len()).filter(|&i| matches!(self.th[i].status, Status::Runnable)).collect();
         if runnable.is_empty() {
             if self.th.iter().any(|t| matches!(t.status, Status::Blocked(_))) { self.abort = Some(Verdict::Deadlock) }
@@ -133,14 +142,25 @@ impl Sched {
     fn wait_turn<'a>(&'a self, me: usize, mut s: std::sync::MutexGuard<'a, S>) -> std::sync::MutexGuard<'a, S> {
         self.cv.notify_all();
         while s.current != me && s.abort.is_none() { s = self.cv.wait(s).unwrap(); }
-        if s.abort.is_some() { drop(s); std::panic::resume_unwind(Box::new(Abort)) }
+        if s.abort.is_some() {
+            if std::thread::panicking() {
+                // we are inside a destructor that runs because this thread is already being unwound: it can neither be
+                // unwound again nor be allowed to go on -- leave it parked forever (the run's objects are leaked anyway)
+                s.zombies += 1;
+                self.cv.notify_all();
+                drop(s);
+                loop { std::thread::park(); }
+            }
+            drop(s);
+            std::panic::resume_unwind(Box::new(Abort))
+        }
         s
     }
 
     /// hook entry: called by the instrumented crate before each shared-memory access
     pub fn point(&self, tag: &'static str, v: u64) {
         let me = TID.with(|t| t.get());
-        if me == usize::MAX { return }
+        if me == usize::MAX || IN_SCHED.with(|f| f.get()) { return }
         let mut s = self.m.lock().unwrap();
         if !(s.filter)(tag) { return }
         s.th[me].at = (tag, v);
@@ -207,7 +227,7 @@ pub fn run(cfg: Config, bodies: Vec<Body>) -> Outcome {
         let default = std::panic::take_hook();
         std::panic::set_hook(Box::new(move |info| {
             if info.payload().is::<Abort>() { return }
-            if TID.with(|t| t.get()) != usize::MAX { return }     // recorded in the trace instead
+            if TID.with(|t| t.get()) != usize::MAX && std::env::var_os("VH_VERBOSE").is_none() { return }     // recorded in the trace instead
             default(info)
         }));
     });
@@ -225,6 +245,7 @@ pub fn run(cfg: Config, bodies: Vec<Body>) -> Outcome {
             th: (0..n).map(|_| Th { status: Status::Runnable, at: ("start", 0), opidx: 0 }).collect(),
             rng, trace: vec![], choices: vec![], replay: cfg.replay, seen: HashSet::new(), stale: 0,
             stall_limit: cfg.stall_limit, steps: 0, max_steps: cfg.max_steps, abort: None, filter: cfg.filter, prio,
+            finished: 0, zombies: 0, panics: vec![None; n],
         }),
         cv: Condvar::new(),
     });
@@ -258,15 +279,21 @@ pub fn run(cfg: Config, bodies: Vec<Body>) -> Outcome {
                 s.trace.push(format!("panic {l} {m1}"));
             }
             s.th[me].status = Status::Done;
+            s.panics[me] = panic_msg;
+            s.finished += 1;
             s.pick_next();
             sched.cv.notify_all();
-            panic_msg
         }).unwrap());
     }
     { let mut s = sched.m.lock().unwrap(); s.pick_next(); sched.cv.notify_all(); }
-    let panics: Vec<Option<String>> = handles.into_iter().map(|h| h.join().unwrap_or(Some("join failed".into()))).collect();
+    {
+        let mut s = sched.m.lock().unwrap();
+        while s.finished + s.zombies < n { s = sched.cv.wait(s).unwrap(); }
+    }
+    drop(handles);      // detached: zombies never end
     reactive_mutiny::verif::set_hook(None);
     let mut s = sched.m.lock().unwrap();
+    let panics = std::mem::take(&mut s.panics);
     Outcome {
         verdict: s.abort.clone().unwrap_or(Verdict::Completed),
         trace: std::mem::take(&mut s.trace),
